@@ -67,7 +67,7 @@ META = dict(
         "quick": {"rp_matrix_compared": 7000, "distance_compared": 7000,
                   "tie_cases": 3500, "crp_matrix_compared": 500,
                   "jrp_matrix_compared": 900, "jrp_lag_nonzero": 500,
-                  "isrn_matrix_compared": 400, "adjacency_compared": 4000,
+                  "isrn_matrix_compared": 300, "adjacency_compared": 4000,
                   "rqa_values_compared": 150000, "missing_cases": 600,
                   "embedded_cases": 3500, "local_rate_rows_exact": 3000,
                   "unequal_length_cases": 800, "setter_cases": 1000,
